@@ -460,3 +460,95 @@ pub fn seqhist(args: &[String]) {
     write_json(&args[3], &json!({"classes_run": n, "skipped_infeasible": skipped, "mismatches": bad, "first": mism, "samples": samples, "rows": rows,
         "fse_tables_written": fse_tables, "block_not_compressed": not_compressed}));
 }
+
+/// c16chains <seed> <quick|thorough> <report.json>
+/// Chains of three dependent blocks through a user matcher: every block is literals only / literals plus one long far
+/// match (kept compressed) / one literal plus a 3-byte far match 2048 times (sequences cost more than they save: the block
+/// is stored raw after its tables were built), over two literal alphabets -- all 6^3 chains after a history of RLE blocks.
+/// What the encoder remembers about Huffman tables (new / treeless / discarded with a raw block) must stay in step with
+/// what a decoder of the frame holds: the frame decodes to the input with both decoders.
+pub fn c16chains(args: &[String]) {
+    quiet_panics();
+    let seed: u64 = args[0].parse().unwrap();
+    let quick = args[1] == "quick";
+    let mut rng = SmallRng::seed_from_u64(seed ^ 0x16c);
+    const SLICE: usize = 8192;
+    const HIST_BLOCKS: usize = 540; // > 4 MiB of zeros: far offsets cost 21..22 extra bits
+    let kinds = ["litsA", "litsB", "cheapA", "cheapB", "costlyA", "costlyB"];
+    let alphabet = |k: &str| -> Vec<u8> { if k.ends_with('A') { (0..8u8).map(|i| b'a' + i).collect() } else { (0..128u8).map(|i| 100u8.wrapping_add(i)).collect() } };
+    let (mut n, mut bad) = (0u64, 0u64);
+    let mut mism: Vec<Value> = vec![];
+    let mut kinds_seen = std::collections::BTreeMap::<String, u64>::new();
+    for a in 0..6 {
+        for b in 0..6 {
+            for c in 0..6 {
+                if quick && (a * 36 + b * 6 + c) % 2 == 1 && !(kinds[b].starts_with("costly")) {
+                    continue;
+                }
+                let chain = [kinds[a], kinds[b], kinds[c]];
+                let mut data = vec![0u8; SLICE * HIST_BLOCKS];
+                let mut plans: Vec<Parse> = vec![vec![]; HIST_BLOCKS];
+                for k in chain {
+                    let al = alphabet(k);
+                    let pick = |rng: &mut SmallRng| -> u8 {
+                        // alphabet A skewed, alphabet B uniform
+                        if al.len() == 8 { al[(rng.gen::<f64>().powi(2) * 8.0) as usize % 8] } else { al[rng.gen_range(0..al.len())] }
+                    };
+                    let start = data.len();
+                    let mut plan: Parse = vec![];
+                    let mut pending = 0usize;
+                    if k.starts_with("lits") {
+                        for _ in 0..SLICE {
+                            data.push(pick(&mut rng));
+                        }
+                    } else if k.starts_with("cheap") {
+                        for _ in 0..2048 {
+                            data.push(pick(&mut rng));
+                        }
+                        // one long match into the zeros, far away
+                        let off = (1usize << 20) + rng.gen_range(0..SLICE); // reaches the history
+                        plan.push((2048, off, SLICE - 2048));
+                        for _ in 0..(SLICE - 2048) {
+                            let v = data[data.len() - off];
+                            data.push(v);
+                        }
+                    } else {
+                        // 2048 sequences: 0..2 literals (2048 in total), then a 3-byte match 2..4 MiB back, inside the zeros:
+                        // about 25 bits per sequence for 24 bits saved
+                        for i in 0..2048 {
+                            let ll = match (i % 2, rng.gen_range(0..3)) { (0, r) => { pending = 2 - r; r } (_, _) => pending };
+                            for _ in 0..ll {
+                                data.push(pick(&mut rng));
+                            }
+                            let off = (1usize << 21) + rng.gen_range(0..(1usize << 21) + 40_000);
+                            plan.push((ll, off, 3));
+                            for _ in 0..3 {
+                                let v = data[data.len() - off];
+                                data.push(v);
+                            }
+                        }
+                    }
+                    debug_assert_eq!(data.len() - start, SLICE);
+                    plans.push(plan);
+                }
+                n += 1;
+                let (e, frame) = roundtrip_frame(&data, SLICE, plans, 8 << 20);
+                // which block kinds the compressor chose for the three chain blocks (type, literals type)
+                if let Ok(lay) = crate::frames::walk_frame(&frame) {
+                    if let Some(bl) = lay["blocks"].as_array() {
+                        for bk in bl.iter().skip(HIST_BLOCKS).take(3) {
+                            *kinds_seen.entry(format!("type{}_lit{}", bk["type"], bk["lit_type"])).or_insert(0) += 1;
+                        }
+                    }
+                }
+                if let Some(e) = e {
+                    bad += 1;
+                    if mism.len() < 12 {
+                        mism.push(json!({"chain": chain, "error": e}));
+                    }
+                }
+            }
+        }
+    }
+    write_json(&args[2], &json!({"chains_run": n, "mismatches": bad, "first": mism, "block_kinds_of_chain_blocks": kinds_seen}));
+}
